@@ -39,6 +39,13 @@ SPEC = {"amp": {1: True, 2: True, 3: True},
         "theta": {1: False, 2: False, 3: True}}
 
 MUTANTS = [
+    ("deconvolved size converted back with the wrong factor",
+     "AegeanTools/cluster.py",
+     "                src.a = np.sqrt(src.a) * 3600  # arcsec",
+     "                src.a = np.sqrt(src.a) / 3600  # arcsec", "C05-R15"),
+    ("resize runs the ratio branch when no ratio is given",
+     "AegeanTools/cluster.py", "    if ratio is not None:\n        log.info(",
+     "    if ratio is None:\n        log.info(", "C05-R15"),
     ("off-image test left to IndexError", "AegeanTools/source_finder.py",
      "                    not 0 <= x < shape[0]\n"
      "                    or not 0 <= y < shape[1]\n"
@@ -335,6 +342,7 @@ def run(ctx):
               "fitting")
     rule_groupby(ctx, prog)
     rule_guarded_pixel(ctx, prog)
+    rule_psf_rescale(ctx, prog)
     # blends are fitted jointly: default grouping length (shared with C19)
     from .c19 import default_linking_length
     ctx.rule("C05-R8", "blended sources are fitted jointly: the default "
@@ -693,6 +701,88 @@ def r5(ctx, prog):
               "Beam(nan, nan, nan) then raises and priorized fitting aborts "
               "for every catalogue lacking the optional columns" %
               (attr, default), {"default": default}, hp[0])
+
+
+def rule_psf_rescale(ctx, prog, rule="C05-R15"):
+    """resize with ratio None (what priorized fitting uses): the catalogue
+    psf is deconvolved and the image psf convolved, in consistent units; a
+    catalogue made from the same image comes back unchanged"""
+    from .. import concrete
+    ctx.rule(rule, "shapes handed to the fit are the catalogue shapes seen "
+             "through the image psf: in cluster.resize the ratio branch runs "
+             "exactly when a ratio is given, the psf branch when there is no "
+             "ratio but a psf (map or catalogue columns); the psf branch, "
+             "interpreted over sample sizes, gives new^2 = old^2 - cat^2 + "
+             "im^2 (arcsec / degrees converted with 3600 both ways), "
+             "clipped at the image psf, so equal psfs change nothing")
+    rs = prog.func("cluster.resize")
+    # -- which branch ------------------------------------------------------
+    top = [st for st in rs.node.body if isinstance(st, ast.If) and
+           "ratio" in names_in(st.test)]
+    if len(top) != 1:
+        raise AnalysisError("%s: ratio test of resize" % rule)
+    chain = top[0]
+    bad = []
+    psf_if = chain.orelse[0] if chain.orelse and isinstance(
+        chain.orelse[0], ast.If) else None
+    if psf_if is None:
+        raise AnalysisError("%s: psf branch of resize" % rule)
+    for ratio, helper, has in ((None, "H", True), (None, "H", False),
+                               (None, None, True), (None, None, False),
+                               (1, "H", True), (2.0, None, False)):
+        env = {"ratio": ratio, "psfhelper": helper, "has_psf": has}
+        try:
+            first = bool(concrete.ev(chain.test, env))
+            second = (not first) and bool(concrete.ev(psf_if.test, env))
+        except concrete.Unknown as e:
+            raise AnalysisError("%s: branch tests of resize: %s" % (rule, e))
+        want = ("ratio" if ratio is not None else
+                "psf" if (helper is not None or has) else "none")
+        got = "ratio" if first else "psf" if second else "none"
+        if got != want:
+            bad.append((ratio, helper, has, got, want))
+    ctx.check(rule, rs, "branch selection of resize over 6 cases", not bad,
+              "(ratio, psfhelper, has_psf) = %s runs the %s branch, expected "
+              "the %s branch" % ((bad[0][:3], bad[0][3], bad[0][4])
+                                 if bad else ("", "", "")), node=chain)
+    # -- the psf branch -------------------------------------------------------
+    loops = [st for st in psf_if.body if isinstance(st, ast.For)]
+    if len(loops) != 1:
+        raise AnalysisError("%s: source loop of the psf branch" % rule)
+    n = 0
+    for ax in ("a", "b"):
+        stmts = [st for st in loops[0].body
+                 if isinstance(st, (ast.Assign, ast.If, ast.AugAssign)) and
+                 any(isinstance(x, ast.Attribute) and x.attr == ax and
+                     norm(x.value) == "src" and
+                     isinstance(x.ctx, ast.Store) for x in ast.walk(st))]
+        if not stmts:
+            raise AnalysisError("%s: statements rescaling src.%s" % (rule,
+                                                                     ax))
+        badv = []
+        for old, cat, im in ((30.0, 18.0, 21.6), (30.0, 18.0, 18.0),
+                             (10.0, 18.0, 21.6), (45.0, 50.0, 20.0),
+                             (20.0, 20.0, 20.0)):
+            env = {"src." + ax: old, "catbeam." + ax: cat / 3600.0,
+                   "imbeam." + ax: im / 3600.0}
+            try:
+                concrete.run(stmts, env)
+            except concrete.Unknown as e:
+                raise AnalysisError("%s: psf rescale of %s: %s" % (rule, ax,
+                                                                   e))
+            n += 1
+            sq = old ** 2 - cat ** 2 + im ** 2
+            want = sq ** 0.5 if sq >= 0 else im
+            got = env.get("src." + ax)
+            if not isinstance(got, (int, float)) or \
+                    abs(got - want) > 1e-9 * max(1.0, abs(want)):
+                badv.append((old, cat, im, got, want))
+        ctx.check(rule, rs, "psf rescale of src.%s over 5 samples" % ax,
+                  not badv, "a source of %s arcsec with catalogue psf %s and "
+                  "image psf %s arcsec comes out as %s, expected %s" %
+                  (badv[0] if badv else ("", "", "", "", "")),
+                  node=stmts[0])
+    ctx.floor(rule, n, 10, "psf rescale samples interpreted")
 
 
 def rule_guarded_pixel(ctx, prog, rule="C05-R14"):
